@@ -28,6 +28,7 @@ package listener
 
 import (
 	"context"
+	"errors"
 	"fmt"
 	"io"
 	"log/slog"
@@ -154,7 +155,10 @@ type stepper struct {
 	conns      map[int]*cconn
 	order      []int // connection ids in Open order
 	lastQuiet  time.Time
+	firstQuiet time.Time // the first close that left no connection open
+	lastListening time.Time // the listener was still listening at some moment >= this
 	armedOnce  bool
+	probes     int // probe connections made so far (they pass through Count and ConnDone too)
 	strayCalls int
 	lastDone   time.Time      // last time a serve goroutine left (the idle timer may have been armed then)
 	prog       map[string]int // critical sections that ran: counted, done, timer (notification hook points)
@@ -281,6 +285,7 @@ func (s *stepper) Begin(b replay.Behaviour, rng *rand.Rand) error {
 	}
 	s.started = time.Now()
 	s.lastQuiet = s.started
+	s.lastListening = s.started
 	return nil
 }
 
@@ -313,6 +318,11 @@ func (s *stepper) End() {
 	if s.points {
 		vgirpc.SetVerifHook(nil)
 	}
+}
+
+func isTimeout(err error) bool {
+	var ne net.Error
+	return errors.Is(err, os.ErrDeadlineExceeded) || (errors.As(err, &ne) && ne.Timeout())
 }
 
 func payloadConn(p string) int {
@@ -373,10 +383,37 @@ func reader(c *cconn) {
 }
 
 func (s *stepper) dial() (net.Conn, error) {
+	t0 := time.Now()
+	var nc net.Conn
+	var err error
 	if s.transport == "unix" {
-		return net.DialTimeout("unix", s.path, 10*time.Second)
+		nc, err = net.DialTimeout("unix", s.path, 10*time.Second)
+	} else {
+		nc, err = net.DialTimeout("tcp", s.addr, 10*time.Second)
 	}
-	return net.DialTimeout("tcp", s.addr, 10*time.Second)
+	if err == nil {
+		s.sawListening(t0)
+	}
+	return nc, err
+}
+
+// sawListening: the listener was demonstrably still listening at some moment >= t.
+func (s *stepper) sawListening(t time.Time) {
+	s.mu.Lock()
+	if t.After(s.lastListening) {
+		s.lastListening = t
+	}
+	s.mu.Unlock()
+}
+
+// sockNow stats the socket file and notes when it is still there.
+func (s *stepper) sockNow() string {
+	t0 := time.Now()
+	st := s.sockState()
+	if st == "0600" {
+		s.sawListening(t0)
+	}
+	return st
 }
 
 func (s *stepper) sockState() string {
@@ -396,19 +433,14 @@ func (s *stepper) sockState() string {
 	return fmt.Sprintf("%04o", fi.Mode().Perm())
 }
 
-// anyOpen: a connection whose handler demonstrably ran is still open on the client side.
-func (s *stepper) registeredOpenAt(t time.Time) (int, bool) {
+// servedOpen finds a connection that was demonstrably registered (its handler ran) at a
+// time when the listener was afterwards still seen listening, and that the client had not
+// closed by time t. Every timestamp errs on the side of not claiming: confirmed is taken
+// inside the handler, closed before the close call, lastListening before the observation.
+// (mu held by caller)
+func (s *stepper) servedOpen(t time.Time) (int, bool) {
 	for id, c := range s.conns {
-		if c.nc == nil {
-			continue
-		}
-		// registered for sure: its handler ran, or it has been connected for a whole
-		// idle timeout (Accept + counter update take microseconds)
-		conf := c.confirmed
-		if byAge := c.opened.Add(idleTimeout); conf.IsZero() || byAge.Before(conf) {
-			conf = byAge
-		}
-		if conf.After(t) {
+		if c.nc == nil || c.confirmed.IsZero() || c.confirmed.After(s.lastListening) {
 			continue
 		}
 		if !c.isClosed || c.closed.After(t) {
@@ -452,17 +484,46 @@ func (s *stepper) drain() {
 
 // judgeReturn decides what an unpredicted return means (see the package comment).
 // verdict: "violation" (report returned=true) or "skip".
+// judgeReturn decides what a return the specification did not predict means.
+// With the timer funcs gated (Hooks) nothing time-driven can stop the listener without the
+// driver releasing it, so it is always a deviation. On free-running time it is a violation
+// when a served connection was open, or when less than idleTimeout has passed since the
+// FIRST moment the listener can have armed an idle timer (the first close that left no
+// connection open); otherwise the replay stalled somewhere and the timeout legitimately
+// expired: the rest of the scenario is skipped.
 func (s *stepper) judgeReturn() (string, string) {
 	s.mu.Lock()
 	defer s.mu.Unlock()
-	if id, ok := s.registeredOpenAt(s.retAt); ok {
-		return "violation", fmt.Sprintf("listener returned while connection %d (connected %s before) was open", id, s.retAt.Sub(s.conns[id].opened).Round(time.Millisecond))
+	if id, ok := s.servedOpen(s.retAt); ok {
+		return "violation", fmt.Sprintf("listener returned while served connection %d was open", id)
 	}
-	quiet := s.retAt.Sub(s.lastQuiet)
+	ref := s.firstQuiet
+	if ref.IsZero() {
+		ref = s.started
+	}
+	quiet := s.retAt.Sub(ref)
+	if s.wantHooks {
+		return "violation", fmt.Sprintf("listener returned although no timer func was released for it (%s after the last close)",
+			s.retAt.Sub(s.lastQuiet).Round(time.Millisecond))
+	}
 	if quiet < idleTimeout-5*time.Millisecond {
-		return "violation", fmt.Sprintf("listener returned %s after the last served connection was closed (idleTimeout %s)", quiet.Round(time.Millisecond), idleTimeout)
+		return "violation", fmt.Sprintf("listener returned %s after the first close that left it idle (idleTimeout %s)", quiet.Round(time.Millisecond), idleTimeout)
 	}
-	return "skip", fmt.Sprintf("unrealisable: the replay stalled and the idle timeout (%s) legitimately expired %s after the last close", idleTimeout, quiet.Round(time.Millisecond))
+	return "skip", fmt.Sprintf("unrealisable: the replay stalled and the idle timeout (%s) may legitimately have expired (%s since the listener was first idle)", idleTimeout, quiet.Round(time.Millisecond))
+}
+
+// judgeClosed: the listening socket is gone although the listener has not returned and the
+// specification says it is still listening.
+func (s *stepper) judgeClosed() (string, string) {
+	s.mu.Lock()
+	defer s.mu.Unlock()
+	if id, ok := s.servedOpen(time.Now()); ok {
+		return "violation", fmt.Sprintf("listener stopped listening while served connection %d was open", id)
+	}
+	if s.wantHooks {
+		return "violation", "listener stopped listening although no timer func was released for it"
+	}
+	return "skip", "unrealisable: the replay stalled and the idle timeout may legitimately have expired before a connection was registered"
 }
 
 func boolsOf(v any) []bool {
@@ -506,7 +567,11 @@ func (s *stepper) snapshot(st replay.Step, obs replay.Obs) replay.Obs {
 			// the notification points say when a critical section the specification
 			// puts before this observation has actually run
 			for k := range s.prog {
-				if s.prog[k] < replay.Int(expProg, k) {
+				need := replay.Int(expProg, k)
+				if k != "timer_runs" {
+					need += s.probes
+				}
+				if s.prog[k] < need {
 					ok = false
 				}
 			}
@@ -544,6 +609,9 @@ func (s *stepper) snapshot(st replay.Step, obs replay.Obs) replay.Obs {
 	stray := s.strayCalls
 	progress := map[string]int{}
 	for k, v := range s.prog {
+		if k != "timer_runs" {
+			v -= s.probes
+		}
 		progress[k] = v
 	}
 	s.mu.Unlock()
@@ -559,14 +627,14 @@ func (s *stepper) snapshot(st replay.Step, obs replay.Obs) replay.Obs {
 				"unrealisable: the replay stalled, an idle timer armed %s ago expired", since.Round(time.Millisecond))}
 		}
 	}
-	sock := s.sockState()
-	if want, _ := st.Exp["sock"].(string); want == "0600" && sock == "gone" && !s.returned.Load() {
+	wantSock, _ := st.Exp["sock"].(string)
+	sock := s.sockNow()
+	if wantSock == "0600" && sock == "gone" && !s.returned.Load() {
 		// the listener has closed its socket; if that is a legitimate expiry after a stall
 		// the return follows at once — give it a moment so it is judged as such
 		for t0 := time.Now(); time.Since(t0) < 300*time.Millisecond && !s.returned.Load(); {
 			time.Sleep(time.Millisecond)
 		}
-		sock = s.sockState()
 	}
 	ret := s.returned.Load()
 	if ret && !expReturned {
@@ -576,15 +644,27 @@ func (s *stepper) snapshot(st replay.Step, obs replay.Obs) replay.Obs {
 			return replay.Obs{"__skip__": true, "__note__": why}
 		}
 		obs["__note__"] = why
+	} else if !ret && wantSock == "0600" && sock == "gone" {
+		verdict, why := s.judgeClosed()
+		if verdict == "skip" {
+			s.skipAll = true
+			return replay.Obs{"__skip__": true, "__note__": why}
+		}
+		obs["__note__"] = why
 	}
 	obs["returned"] = ret
 	if ret && expReturned && !s.wantHooks {
-		// lower bound: a full idle timeout lies between the last close and the return
+		// lower bound: a full idle timeout lies between the first moment the listener can
+		// have armed an idle timer and the return
 		s.mu.Lock()
-		quiet := s.retAt.Sub(s.lastQuiet)
+		ref := s.firstQuiet
+		if ref.IsZero() {
+			ref = s.started
+		}
+		quiet := s.retAt.Sub(ref)
 		s.mu.Unlock()
 		if quiet < idleTimeout-5*time.Millisecond {
-			obs["returned"] = fmt.Sprintf("early: %s after the last close (idleTimeout %s)", quiet.Round(time.Millisecond), idleTimeout)
+			obs["returned"] = fmt.Sprintf("early: %s after the close that left it idle (idleTimeout %s)", quiet.Round(time.Millisecond), idleTimeout)
 		}
 	}
 	if !ret && expReturned {
@@ -654,7 +734,7 @@ func (s *stepper) Step(i int, st replay.Step) (replay.Obs, error) {
 			cc.isClosed = true
 			cc.closed = time.Now()
 			obs["__note__"] = "dial: " + err.Error()
-			if ne, ok := err.(net.Error); ok && ne.Timeout() {
+			if isTimeout(err) {
 				// neither accepted nor refused within 10 s: the machine stalled
 				s.skipAll = true
 				return replay.Obs{"__skip__": true, "__note__": "unrealisable: " + err.Error()}, nil
@@ -667,6 +747,9 @@ func (s *stepper) Step(i int, st replay.Step) (replay.Obs, error) {
 						s.skipAll = true
 						return replay.Obs{"__skip__": true, "__note__": why}, nil
 					}
+				} else if verdict, why := s.judgeClosed(); verdict == "skip" {
+					s.skipAll = true
+					return replay.Obs{"__skip__": true, "__note__": why}, nil
 				}
 			}
 		}
@@ -677,13 +760,18 @@ func (s *stepper) Step(i int, st replay.Step) (replay.Obs, error) {
 		if cc == nil || cc.nc == nil {
 			return nil, fmt.Errorf("Close(%d): no such connection", c)
 		}
-		err := cc.nc.Close()
+		// The timestamp is taken BEFORE the close: the server cannot have seen the EOF (and
+		// armed its idle timer) earlier than this, whatever stalls this goroutine afterwards.
 		now := time.Now()
+		err := cc.nc.Close()
 		s.mu.Lock()
 		cc.isClosed = true
 		cc.closed = now
 		if s.clientOpen() == 0 {
 			s.lastQuiet = now
+			if s.firstQuiet.IsZero() {
+				s.firstQuiet = now
+			}
 			s.armedOnce = true // from now on an idle timer (not the 60 s grace) may be armed
 		}
 		s.mu.Unlock()
@@ -701,6 +789,11 @@ func (s *stepper) Step(i int, st replay.Step) (replay.Obs, error) {
 		obs["sent"] = err == nil
 		if err != nil {
 			obs["__note__"] = "write: " + err.Error()
+			if isTimeout(err) && !s.returned.Load() {
+				// a few hundred bytes did not fit a fresh socket buffer within 5 s: the machine stalled
+				s.skipAll = true
+				return replay.Obs{"__skip__": true, "__note__": "unrealisable: " + err.Error()}, nil
+			}
 		}
 	case "CallFinish":
 		s.mu.Lock()
@@ -781,24 +874,47 @@ func (s *stepper) Step(i int, st replay.Step) (replay.Obs, error) {
 	if _, skipped := out["__skip__"]; skipped {
 		return out, nil
 	}
-	// while a connection is open the listener must still accept (probe connection)
-	if st.A == "Wait" && !s.wantHooks {
+	// While a served connection is open the listener must still accept: a probe connection
+	// (connect, close) is harmless then — the counter stays above zero throughout.
+	out["__skip__"] = true // "accepting" is only observed when a probe is possible
+	if !s.wantHooks && !s.returned.Load() {
 		s.mu.Lock()
-		_, regOpen := s.registeredOpenAt(time.Now())
+		probe := false
+		for _, c := range s.conns {
+			if c.nc != nil && !c.confirmed.IsZero() && !c.isClosed {
+				probe = true
+			}
+		}
+		if probe {
+			s.probes++
+		}
 		s.mu.Unlock()
-		if regOpen && !s.returned.Load() {
+		if probe {
 			nc, err := s.dial()
-			out["accepting"] = err == nil
 			if err == nil {
 				nc.Close()
-			} else if out["__note__"] == nil {
+				out["accepting"] = true
+			} else if isTimeout(err) {
+				s.skipAll = true
+				return replay.Obs{"__skip__": true, "__note__": "unrealisable: probe " + err.Error()}, nil
+			} else {
+				s.mu.Lock()
+				s.probes--
+				s.mu.Unlock()
+				time.Sleep(20 * time.Millisecond)
+				if s.returned.Load() {
+					if verdict, why := s.judgeReturn(); verdict == "skip" {
+						s.skipAll = true
+						return replay.Obs{"__skip__": true, "__note__": why}, nil
+					}
+				} else if verdict, why := s.judgeClosed(); verdict == "skip" {
+					s.skipAll = true
+					return replay.Obs{"__skip__": true, "__note__": why}, nil
+				}
+				out["accepting"] = false
 				out["__note__"] = "probe dial: " + err.Error()
 			}
-		} else {
-			out["__skip__"] = true
 		}
-	} else {
-		out["__skip__"] = true
 	}
 	return out, nil
 }
